@@ -20,6 +20,8 @@ struct St {
     vacuumed: bool,
     /// the previous event was a checkpoint
     after_flush: bool,
+    /// sessions whose transaction VACUUM aborted and that have not been ended yet
+    zombies: BTreeSet<u32>,
 }
 
 fn key_str(vals: &[Val], cols: &[usize]) -> String {
@@ -258,6 +260,7 @@ pub fn first_violation(events: &[Event], guards: &[String]) -> Option<(usize, St
         poisoned: BTreeSet::new(),
         vacuumed: false,
         after_flush: false,
+        zombies: BTreeSet::new(),
     };
     for (i, ev) in events.iter().enumerate() {
         st.after_flush = i > 0 && matches!(events[i - 1], Event::Flush);
@@ -328,9 +331,13 @@ pub fn first_violation(events: &[Event], guards: &[String]) -> Option<(usize, St
                     continue; // ignored by the executor as well (finding D26)
                 }
                 let tx = st.model.begin();
+                st.zombies.remove(k);
                 st.sess.insert(*k, tx);
             }
             Event::Exec(k, s) => {
+                if has("statement_in_session_after_vacuum_aborted_it") && st.zombies.contains(k) {
+                    return Some((i, "statement_in_session_after_vacuum_aborted_it".into()));
+                }
                 let Some(&tx) = st.sess.get(k) else { continue };
                 if let Some(g) = st.stmt_guards(&has, tx, s, Some(*k), false) {
                     return Some((i, g));
@@ -344,6 +351,7 @@ pub fn first_violation(events: &[Event], guards: &[String]) -> Option<(usize, St
                 }
             }
             Event::Commit(k) => {
+                st.zombies.remove(k);
                 let Some(tx) = st.sess.remove(k) else { continue };
                 if st.model.txs[tx].status == TxStatus::Aborted {
                     st.end_session(*k, true);
@@ -359,6 +367,7 @@ pub fn first_violation(events: &[Event], guards: &[String]) -> Option<(usize, St
                 }
             }
             Event::Abort(k) | Event::DropSession(k) => {
+                st.zombies.remove(k);
                 let Some(tx) = st.sess.remove(k) else { continue };
                 st.model.abort(tx);
                 st.end_session(*k, true);
@@ -381,6 +390,8 @@ pub fn first_violation(events: &[Event], guards: &[String]) -> Option<(usize, St
                     let tx = st.sess[&k];
                     st.model.abort(tx);
                     st.end_session(k, true);
+                    st.sess.remove(&k);
+                    st.zombies.insert(k);
                 }
                 st.vacuumed = true;
             }
@@ -394,6 +405,7 @@ pub fn first_violation(events: &[Event], guards: &[String]) -> Option<(usize, St
                 if matches!(ev, Event::Vacuum) && has("vacuum_after_rolled_back_delete") && (!st.delete_rolled_back.is_empty() || !st.sess_deleted.is_empty()) {
                     return Some((i, "vacuum_after_rolled_back_delete".into()));
                 }
+                st.zombies.clear();
                 let ks: Vec<u32> = st.sess.keys().copied().collect();
                 for k in ks {
                     let tx = st.sess.remove(&k).unwrap();
